@@ -33,7 +33,7 @@ UNITS = [
       functions=["secp256k1_rangeproof_sign", "secp256k1_rangeproof_rewind", "secp256k1_surjectionproof_generate", "secp256k1_whitelist_sign", "secp256k1_schnorrsig_aggverify"]),
     # (iii) results under arbitrary initial static state
     U("C20.static_state_compact", ["C20"], "harness/C20/state.c", "h_static_state_compact", unwind=70, timeout=300, min_obl=3, replay=True,
-      functions=["secp256k1_ecdsa_signature_serialize_compact", "secp256k1_ecdsa_signature_load", "secp256k1_scalar_get_b32"],
+      functions=["secp256k1_ecdsa_signature_parse_compact", "secp256k1_ecdsa_signature_serialize_compact"],
       note="DFCC havocs every static-lifetime object at entry: the functional postcondition holds for every prior static state (DER: C03.der.serialize, tagged C20)"),
     # (iv) const-context frames
     U("C20.frame_ecdsa_verify", ["C20"], "harness/C20/frames.c", "h_frame_ecdsa_verify", unwind=70, timeout=600, min_obl=20,
@@ -45,10 +45,11 @@ UNITS = [
     U("C20.frame_schnorrsig_verify", ["C20"], "harness/C20/frames.c", "h_frame_schnorrsig_verify", unwind=70, timeout=900, min_obl=20, slice_formula=True,
       replace=HASH + ["secp256k1_ecmult", "secp256k1_ge_set_gej_var"], assumed=["secp256k1_ecmult", "secp256k1_ge_set_gej_var"], functions=["secp256k1_schnorrsig_verify"]),
     # results under arbitrary static state: tagged hash (seeded defect C20-1)
-    U("C20.tagged_sha256", ["C20"], "harness/C20/tagged.c", "h_tagged_sha256", unwind=70, timeout=600, min_obl=10, replace=HASH,
-      functions=["secp256k1_tagged_sha256", "secp256k1_sha256_initialize_tagged", "secp256k1_sha256_initialize"],
-      note="hash stream contracts (C05) replace write/finalize; statics arbitrary at entry: no part of the stream can come from an earlier call; tag and message lengths <= 10000"),
+    U("C20.tagged_sha256", ["C20"], "harness/C20/tagged.c", "h_tagged_sha256", unwind=70, timeout=900, min_obl=6,
+      functions=["secp256k1_tagged_sha256", "secp256k1_sha256_initialize_tagged", "secp256k1_sha256_write", "secp256k1_sha256_finalize"],
+      bounded="tag <= 20 bytes, message <= 40 bytes",
+      note="behavioural: f(tag,msg) ; f(other) ; f(tag,msg) give equal digests under arbitrary initial statics; compression function uninterpreted; nothing about the internal structure is pinned"),
     U("C20.static_facts", ["C20"], "engine/static_facts.py", "script", script=["python3", "$VERIF/engine/static_facts.py", "--repo", "$REPO"], timeout=600,
       functions=["(every function of the library TU: symbol table and goto program scan)"],
-      note="C20 supporting static fact: no static-lifetime object declared under src/ or include/ is written or address-taken by library code (goto-instrument symbol table + goto program scan; not a cbmc obligation)"),
+      note="C20 supporting static fact: no static-lifetime object declared under src/ or include/ is written by library code, nor has its address passed to a non-const pointer (address-taken otherwise: warning) (goto-instrument symbol table + goto program scan; not a cbmc obligation)"),
 ]
